@@ -17,3 +17,5 @@ def run(ctx):
         small2.run(ctx, found=bool(ctx.violations))
         from .. import small1        # AVR / IRCAM / PAF / SVX / VOC / NIST container models (lean/SfModel/SmallSession.lean + one file each)
         small1.run(ctx, found=bool(ctx.violations))
+        from .. import small3        # NIST / VOC / XI / MAT5 / SDS container models (lean/SfModel/Nist.lean, ...; driver `sfmodel small3`)
+        small3.run(ctx, found=bool(ctx.violations))
